@@ -37,6 +37,20 @@ func (c *hctx) Err() error {
 	return c.err
 }
 func (c *hctx) Deadline() (time.Time, bool)     { return c.deadline, c.hasDeadline }
+
+// errCause is what Cause() reports for every ended harness context: a value different from
+// Err(), as for a context made by WithCancelCause / WithTimeoutCause. Dial has to report the
+// context's error, not this.
+var errCause = errors.New("harness: the cause the application gave for ending the context")
+
+func (c *hctx) Cause() error {
+	c.w.mu.Lock()
+	defer c.w.mu.Unlock()
+	if c.err == nil {
+		return nil
+	}
+	return errCause
+}
 func (c *hctx) Value(key interface{}) interface{} { return nil }
 
 // cancel must be called with w.mu held.
